@@ -72,11 +72,11 @@ static void run_op(std::string const& line) {
   auto A = [&](size_t i) { return i < a.size() ? a[i] : 0; };
   int acc = 1, skip = 0, ii = 0; std::string thr;
   try {
-    if (op == "cexpect") {           // cexpect slot kind ny retk y1 y2 y3 ythrow retv lo hi
+    if (op == "cexpect") {           // cexpect slot kind ny retk y1 y2 y3 ythrow retv lo hi ord
       int s = A(0);
       if (s < 1 || s > NSLOT || exps[s]) skip = 1;
       else { Cfg& c = cfg[s]; c = Cfg{}; c.kind = A(1); c.ny = A(2); c.retk = A(3); c.y[0] = A(4); c.y[1] = A(5); c.y[2] = A(6); c.ythrow = A(7); c.retv = A(8); c.lo = A(9); c.hi = A(10);
-             if (!make_cexp(s, c.kind, c.ny, c.retk)) skip = 1; }
+             if (!make_cexp(s, c.kind, c.ny, c.retk, A(11))) skip = 1; }
     } else if (op == "ccall") {      // ccall inst kind
       ii = A(0); int k = A(1);
       if (ii < 1 || ii > NINST || inst[ii].kind) { skip = 1; ii = 0; }
